@@ -19,7 +19,7 @@ enum {
     CT_INPUTS, CT_CONFIGS, CT_STATES, CT_TRANS, CT_ERRSTATE_TRANS, CT_INIT_REJECTED, CT_INIT_ACCEPTED, CT_MERGED_FILL,
     CT_E_RANGE, CT_E_FORMAT, CT_E_NULL, CT_E_STATE, CT_E_WRONGTYPE, CT_E_MAXOBJ, CT_E_MAXARR,
     CT_SPANS_CHECKED, CT_REINIT_CHECKS, CT_REINIT_OTHER_BUFFER, CT_CB_CALLS, CT_CB_MAXRATIO, CT_LOOKUPS, CT_MAXSTATES,
-    CT_TOWER_RUNS, CT_MUTANTS, CT_IGNORED_OTHER_PROP, CT_OBS_CALLS, CT_STALE_ONLY, CT_GETTER_WRITES,
+    CT_TOWER_RUNS, CT_MUTANTS, CT_IGNORED_OTHER_PROP, CT_OBS_CALLS, CT_STALE_ONLY, CT_GETTER_WRITES, CT_CBMODE_CONFIGS,
     CT_W_SEQS, CT_W_RUNS, CT_W_CALLS, CT_W_OVERFLOW_RUNS, CT_W_FIT_RUNS, CT_W_FALSE_CALLS, CT_W_ERR_RANGE, CT_W_ERR_FORMAT, CT_W_ERR_NULL,
     CT_W_REINIT_CHECKS, CT_W_STATES
 };
@@ -29,7 +29,7 @@ static const char *const ctr_names[VF_NCTR] = {
     "reached_error_WRONG_TYPE", "reached_error_MAX_DEPTH_OBJECT", "reached_error_MAX_DEPTH_ARRAY", "returned_spans_bounds_checked",
     "reinit_image_comparisons_same_buffer", "reinit_image_comparisons_other_buffer", "callback_invocations", "max_callbacks_minus_2x_bytes_advanced",
     "field_lookups", "max_states_one_configuration", "tower_runs", "mutant_inputs", "mismatches_left_to_other_property", "observer_getter_calls",
-    "reinit_images_differing_only_in_unobservable_bytes", "getters_that_wrote_into_the_parser_object",
+    "reinit_images_differing_only_in_unobservable_bytes", "getters_that_wrote_into_the_parser_object", "configurations_with_an_api_using_error_raising_callback",
     "writer_sequences", "writer_runs_seq_x_capacity", "writer_calls", "writer_overflow_runs", "writer_fitting_runs", "writer_calls_returning_false",
     "writer_reached_error_RANGE", "writer_reached_error_FORMAT", "writer_reached_error_NULL", "writer_reinit_checks", "writer_states"
 };
@@ -66,11 +66,21 @@ static uint8_t *BADSTATE;        /* states whose observers already failed are re
 static uint64_t cb_count; static size_t cb_maxused;
 static char *tostr_buf;                     /* 4096-byte heap block */
 
+/* CBMODE 1: the user callback itself uses the API on the parser it is called for - it asks for the current name at every
+ * token, which raises BINSON_ERROR_STATE where there is none (inside arrays, before the first field). An error raised
+ * this way in the middle of a call is an error like any other: it must still be set when the call returns (C09). */
+static int CBMODE;
+static int cb_raised;
 static void count_cb(binson_parser *p, uint16_t ns, void *ctx)
 {
     (void) ns; (void) ctx;
     cb_count++;
     if (p->buffer_used > cb_maxused) cb_maxused = p->buffer_used;
+    if (CBMODE && cb_count == (uint64_t) CBMODE) {     /* at exactly ONE token of the call (the CBMODE-th): a later callback must not re-raise what the library may have lost */
+        binson_err before = p->error_flags;
+        (void) binson_parser_get_name(p);
+        if (before == BINSON_ERROR_NONE && p->error_flags != BINSON_ERROR_NONE) cb_raised = 1;
+    }
 }
 
 /* ---- other buffers B for "reuse on a different buffer" (C12) */
@@ -252,7 +262,7 @@ static bool do_op(shadow *sh, int op, mismatch *mm, bool counting)
         if (!check_other_buffers(mm)) { mm->prop = "C12"; return !P_C12; }
         return true;
     }
-    cb_count = 0; cb_maxused = used0;
+    cb_count = 0; cb_maxused = used0; cb_raised = 0;
     if (!is_verifylike(op)) { p->cb = count_cb; p->cb_context = NULL; }
     vf_progress++;
     cur_op = op;
@@ -339,6 +349,14 @@ static bool do_op(shadow *sh, int op, mismatch *mm, bool counting)
     if (mm->prop && !strcmp(mm->prop, vf_g.prop)) return false;
     mm->prop = NULL; mm->why[0] = 0;
 
+    /* ---------------- C09: an error raised from inside the user callback during this call must survive the call */
+    if (cb_raised && e1 == BINSON_ERROR_NONE) {
+        snprintf(mm->why, sizeof mm->why, "during %s the token callback raised an error (get_name where there is no name) but error_flags is NONE when the call returns (ret=%d)", opname[op], ret);
+        snprintf(mm->sig, sizeof mm->sig, "latch:error-raised-in-callback-lost:%s", opname[op]);
+        mm->prop = "C09";
+        if (P_C09) return false;
+        mm->prop = NULL;
+    }
     /* ---------------- C09: the error latches */
     if (err0 && !is_reinit(op) && !is_verifylike(op)) {
         if (ret || e1 == BINSON_ERROR_NONE) {
@@ -374,8 +392,9 @@ static bool do_op(shadow *sh, int op, mismatch *mm, bool counting)
             }
         }
     }
-    /* ---------------- C12: init / reset / verify give a clean start */
-    if (is_reinit(op)) {
+    /* ---------------- C12: init / reset / verify give a clean start (not compared while the error-raising callback is installed:
+     * it changes what verify sees, by design) */
+    if (is_reinit(op) && !CBMODE) {
         int k = op == OP_INIT_OBJ ? 0 : op == OP_INIT_ARR ? 1 : (ptype0 == 1 ? 0 : 1);
         const fresh_t *f = op == OP_VERIFY ? &FR_verify[k] : &FR_init[k];
         binson_err fe = op == OP_VERIFY ? FR_verify_err[k] : FR_init_err[k];
@@ -535,7 +554,7 @@ static void explore_config(void)
     alloc_live();
     compute_fresh();
     bool ok = first_init();
-    bool primary = FILL == 0 && KIND0 == VK_OBJ;
+    bool primary = FILL == 0 && KIND0 == VK_OBJ;      /* (the CBMODE exploration runs in this configuration too) */
     vf_count(ok ? CT_INIT_ACCEPTED : CT_INIT_REJECTED, 1);
     size_t isz = vf_snap_size(MD), rec = isz + sizeof(shadow);
     vf_snap snap;
@@ -635,6 +654,7 @@ static void explore_config(void)
 }
 
 static const int DEPTHS_Q[] = { 1, 2, 3 };
+static bool CB_FAMILY;
 static void process_input(const uint8_t *b, size_t n, const char *label)
 {
     IN = b; INLEN = n; INLABEL = label;
@@ -646,6 +666,15 @@ static void process_input(const uint8_t *b, size_t n, const char *label)
                 KIND0 = k; MD = DEPTHS_Q[di]; FILL = fi == 0 ? 0x00 : fi == 1 ? 0xAA : 0xFF;
                 explore_config();
             }
+    if (CB_FAMILY) {
+        /* the same graph with a user callback that uses the API itself (and raises errors): primary configuration, max_depth 2 */
+        for (CBMODE = 1; CBMODE <= 3; CBMODE++) {       /* the callback raises at the 1st, the 2nd or the 3rd token of a call */
+            KIND0 = VK_OBJ; MD = 2; FILL = 0;
+            vf_count(CT_CBMODE_CONFIGS, 1);
+            explore_config();
+        }
+        CBMODE = 0;
+    }
 }
 
 /* ---- input families */
@@ -662,7 +691,9 @@ static void on_seq(vf_tokenum *e, void *u)
     (void) u;
     if (vf_deadline_passed()) { e->stop = true; return; }
     if (!take()) return;
+    CB_FAMILY = e->depth <= 2;
     process_input(e->buf, e->len, vf_tokenum_label(e));
+    CB_FAMILY = false;
 }
 
 /* one-deviation mutants of a valid document */
@@ -708,7 +739,7 @@ static void on_doc_plain(vf_gen *g, void *u)
 {
     (void) u;
     if (vf_deadline_passed()) { g->stop = true; return; }
-    if (take()) process_input(g->doc.bytes, g->doc.len, vf_shape(&g->doc));
+    if (take()) { CB_FAMILY = true; process_input(g->doc.bytes, g->doc.len, vf_shape(&g->doc)); CB_FAMILY = false; }
 }
 
 /* ---- towers: nesting around every limit, linear scripted histories, max_depth up to 255 */
@@ -720,7 +751,7 @@ static void tower_run(const uint8_t *b, size_t n, int kind, int md, const char *
     for (int fi = 0; fi < 2; fi++) {
         FILL = fi ? 0xAA : 0;
         int refv = vf_ref_decode(IN, INLEN, KIND0, MD, NULL);
-        for (int script = 0; script < 4; script++) {
+        for (int script = 0; script < 5; script++) {
             /* vf_snap is limited to 16 levels: towers run on the live object only */
             vf_live_alloc(&L, IN, INLEN, MD, FILL);
             cur_in_bfs = 0; cur_nhist = 0;
@@ -735,6 +766,20 @@ static void tower_run(const uint8_t *b, size_t n, int kind, int md, const char *
                     else if (cur_op == OP_TOSTR_NULL) binson_parser_to_string(L.p, NULL, &ts, false);
                     else binson_parser_print(L.p);
                     vf_count(CT_TRANS, 1);
+                }
+            } else if (script == 4) {
+                /* enter the root only, then step over everything with next: a too-deep tower is met by a SKIPPING call */
+                cur_op = KIND0 == VK_OBJ ? OP_INTO_OBJ : OP_INTO_ARR; vf_progress++;
+                if (KIND0 == VK_OBJ) binson_parser_go_into_object(L.p); else binson_parser_go_into_array(L.p);
+                for (int round = 0; round < 8; round++) { cur_op = OP_NEXT; vf_progress++; binson_parser_next(L.p); vf_count(CT_TRANS, 1); }
+                cur_op = KIND0 == VK_OBJ ? OP_LEAVE_OBJ : OP_LEAVE_ARR; vf_progress++;
+                if (KIND0 == VK_OBJ) binson_parser_leave_object(L.p); else binson_parser_leave_array(L.p);
+                if (refv == VR_OK && L.p->error_flags != BINSON_ERROR_NONE && P_C01) {
+                    vf_str bb = { 0 };
+                    describe_case(&bb, NULL, 0, -1);
+                    vf_str_printf(&bb, "script: enter the root, 8 x next, leave the root\nmismatch: error %s on a valid document\n", vf_err_name(L.p->error_flags));
+                    vf_violation("api:tower:skip-valid-doc-error", bb.s);
+                    vf_str_free(&bb);
                 }
             } else {
                 /* enter everything (script 1) / enter then skip with next (script 2), ignoring results, then leave everything */
@@ -901,7 +946,7 @@ static void worker(int w, int W, uint64_t start)
     {
         static const int clsl[] = { LC_INT8, LC_STR, LC_OBJ, LC_ARR };
         memset(&g, 0, sizeof g);
-        g.root_kind = VK_OBJ; g.max_tokens = N_DOC; g.classes = clsl; g.nclasses = 4; g.names = vf_names_abL; g.nnames = 3; g.max_obj_depth = 3;
+        g.root_kind = VK_OBJ; g.max_tokens = N_DOC; g.classes = clsl; g.nclasses = 4; g.names = vf_names_abL; g.nnames = 4; g.max_obj_depth = 3;
         g.cb = on_doc_plain;
         vf_gen_run(&g);
     }
